@@ -567,8 +567,10 @@ func boundedText(v ssa.Value, tokT string, depth int) bool {
 				return true
 			}
 		}
-		if ia, ok := x.X.(*ssa.IndexAddr); ok {
-			_ = ia
+		// an entry of a package-level table: its length is a constant of the program
+		// (package-level state is not written after initialisation — C05's rule)
+		if isStringType(x.Type()) && rootsAtGlobal(x.X, 0) {
+			return true
 		}
 		return false
 	case *ssa.Call:
@@ -597,4 +599,23 @@ func boundedText(v ssa.Value, tokT string, depth int) bool {
 
 func buildStateGraphQuiet(p *core.Program, a *Anchors) *stateGraph {
 	return buildStateGraph(p, a, core.NewResult("-", "other"))
+}
+
+// rootsAtGlobal: the address is an element / field path inside a package-level variable.
+func rootsAtGlobal(addr ssa.Value, depth int) bool {
+	if depth > 6 {
+		return false
+	}
+	switch x := addr.(type) {
+	case *ssa.Global:
+		return true
+	case *ssa.IndexAddr:
+		return rootsAtGlobal(x.X, depth+1)
+	case *ssa.FieldAddr:
+		return rootsAtGlobal(x.X, depth+1)
+	case *ssa.UnOp:
+		// a slice or pointer stored in the table
+		return x.Op.String() == "*" && rootsAtGlobal(x.X, depth+1)
+	}
+	return false
 }
